@@ -998,13 +998,15 @@ func sequentialFallsBackOnAnyFailure(c *core.Ctx, rule string) {
 			continue
 		}
 		c.Analysed(facts.FuncName(fn))
-		for _, r := range returnsOf(fn) {
-			if facts.Resolve(facts.RetVal(r, 0)) != ssa.Value(first) {
+		// each way of returning (a `return r` whose r is a phi is one way per incoming edge)
+		for _, vr := range virtualReturns(fn) {
+			if len(vr.Vals) == 0 || facts.Resolve(vr.Vals[0]) != ssa.Value(first) {
 				continue
 			}
+			r := vr.Ret
 			n++
 			ok := false
-			for _, cd := range facts.CondsAt(r.Block()) {
+			for _, cd := range vr.Conds {
 				if x, isNil, isNC := facts.NilCheck(cd); isNC && isNil {
 					if call, isCall := facts.Resolve(x).(*ssa.Call); isCall && methName(call.Call.Method.Name()) == "error" && call.Call.IsInvoke() && facts.Resolve(call.Call.Value) == ssa.Value(first) {
 						ok = true
